@@ -76,7 +76,7 @@ def work(arg):
         def body():
             E = SymEnv(tt, qtimeout_ms=opts.get('final_timeout_ms', 30000), scalar_mode=opts.get('scalar_mode', 'Z'))
             holder['E'] = E
-            _setup(opts.get('setup') or {})
+            _setup(opts.get('setup') or {}, opts.get('scalar_mode', 'Z'))
             fn(E, case['s'])
             return None
 
@@ -128,12 +128,13 @@ def work(arg):
     return out
 
 
-def _setup(cfg):
+def _setup(cfg, scalar_mode='Z'):
     """per-path configuration of the factorization model etc. cfg: dict"""
     from . import factor, symtorch
     factor.MODE = cfg.get('factor_mode', 'exact')
     factor.SIGNS = bool(cfg.get('signs', False))
     symtorch.SELECT_MODE = cfg.get('select_mode', 'fork')
+    symtorch.SCALAR_MODE = scalar_mode
     from . import autograd
     autograd.ENABLED = bool(cfg.get('autograd', False))
 
@@ -154,7 +155,7 @@ def exact_trace(arg):
         def body():
             E = ExactEnv(tt, seed, scalar_mode=opts.get('scalar_mode', 'Z'))
             holder['E'] = E
-            _setup(opts.get('setup') or {})
+            _setup(opts.get('setup') or {}, opts.get('scalar_mode', 'Z'))
             SCEN[case['scen']](E, case['s'])
 
         ex = Explorer(logic=None, qtimeout_ms=5000, max_paths=2)
